@@ -105,7 +105,7 @@ pub fn units(tier: Tier, _seed: u64) -> Vec<Unit> {
         add(VK::HLNormalizer(n), Bound::Range(-1.0, 1.0), false, "|out| <= 1", if n >= 4 { n + 3 } else { k });
         if n >= 3 { add(VK::CTI(n), Bound::Range(-1.0, 1.0), false, "|out| <= 1", n + 2); }
         if n >= 3 && n <= 5 { add(VK::NET(n), Bound::Range(-1.0, 1.0), false, "|out| <= 1", n + 2); }
-        if n <= 4 { add(VK::LaguerreRSI(n), Bound::Range(0.0, 1.0), false, "0 <= out <= 1", if tier == Tier::Quick { 6 } else { 7 }); }
+        if n <= 4 { add(VK::LaguerreRSI(n), Bound::Range(0.0, 1.0), false, "0 <= out <= 1", if tier == Tier::Quick { 4 } else { 5 }); }
         add(VK::BinaryEntropy(n), Bound::Range(0.0, 1.0), false, "0 <= out <= 1", k);
         add(VK::WelfordOnline(n), Bound::Ge0, false, "out >= 0", k);
         add(VK::Vsct(n), Bound::VsctBound(n), false, "|out| <= (n-1)/sqrt(n)", k);
